@@ -888,6 +888,9 @@ class Case:
         m = self.regs[r]; npts = self.opt[r]["npts"]; recs = self.recs[r]
         if any(rc["x"][0] == "m" for rc in recs):
             return                                # `[:, cols]` on 3-d parameters selects matrix rows: outside the model
+        # the model mirrors get_ipos / the reshape as they are (finding C20-K6).  Should /repo repair them, the model's
+        # non-uniform branch no longer describes the code: then only the property itself is checked for non-uniform npts
+        compare_model = not (npts and len(set(npts)) > 1) or pos_defect_present()
         if m._npts != npts:
             self.find("monitor", "Monitor._npts/lost", "r%d was built with npts=%r, now has %r (after %s)" % (r, npts, m._npts, self.last[r]))
             return
@@ -900,8 +903,11 @@ class Case:
             except ValueError:
                 return ["e", "value"]
         exp = ["mv", view("wts"), view("pos")]
-        self.emit("(mview %d %s)" % (r, "none" if npts is None else "(%s)" % " ".join(str(v) for v in npts)), exp,
-                  "r%d.wts, r%d.pos (npts=%r) -> %s" % (r, r, npts, show(exp)))
+        if compare_model:
+            self.emit("(mview %d %s)" % (r, "none" if npts is None else "(%s)" % " ".join(str(v) for v in npts)), exp,
+                      "r%d.wts, r%d.pos (npts=%r) -> %s" % (r, r, npts, show(exp)))
+        else:
+            self.h("mview:non-uniform-npts-not-compared-with-the-model(defect repaired)")
         self.h("mview:" + ("none" if npts is None else "err" if isinstance(exp[1], list) and exp[1][:1] == ["e"] else "ok"))
         # the property: for a trajectory laid out like product_measure.flatten ([w_0.., x_0.., w_1.., x_1.., ...]) the
         # two views are the weight / position blocks of every record
@@ -1187,6 +1193,14 @@ class Case:
                 self.find("monitor", "read_history(logfile)/raises", "raised %r" % (exc,))
         return lines
 
+    def release(self):
+        """after a MemoryError (a changed tree growing a list without end) the monitors still hold the huge lists:
+        drop them, or every later allocation of this process fails too"""
+        import gc
+        self.regs = [None] * NREG
+        gc.collect()
+        _MEMERR[0] += 1
+
     # -------------------------------------------------- driver of one case
     def run(self):
         rng = self.rng
@@ -1245,6 +1259,8 @@ class Case:
                 self.find("monitor", "Monitor/entry-shape/op-%s" % kind, "unexpected value shape %s" % exc)
                 self.dead = True
             except Exception as exc:
+                if isinstance(exc, MemoryError):
+                    self.release()
                 self.find("monitor", "Monitor/op-%s/raises" % kind, "operation %s raised %r (ops so far: %s)" % (kind, exc, self.readable[-3:]))
                 self.dead = True
         try:
@@ -1266,6 +1282,17 @@ class Case:
             self.find("monitor", "logfile/readback-raises", "raised %r" % (exc,))
             lines = []
         return lines
+
+
+_POS_DEFECT = []
+
+
+def pos_defect_present():
+    """does this mystic still select the position columns with the offset npts[0] (finding C20-K6)?"""
+    if not _POS_DEFECT:
+        from mystic.monitors import Monitor
+        _POS_DEFECT.append(list(Monitor(npts=(2, 3))._pos) == [2, 3, 6, 7, 8])
+    return _POS_DEFECT[0]
 
 
 def mixed_costs(m):
@@ -1322,19 +1349,33 @@ def run_driver_retry(lines, tries=90):
             time.sleep(2.0)
 
 
+_MEMERR = [0]       # MemoryErrors met in this process: after a few the failing input is known, the rest of the shard is skipped
+
+
 def limit_memory():
     """a changed tree may loop while growing a list (e.g. a monitor extended with itself): turn that into a
-    MemoryError inside the case (reported as a finding) instead of exhausting the machine"""
+    MemoryError inside the case (reported as a finding) instead of exhausting the machine.  Returns the limits to
+    restore before the model driver is started (the Lean runtime reserves address space for its threads)."""
     try:
         import resource
         vm = 0
         for l in open("/proc/self/status"):
             if l.startswith("VmSize:"):
                 vm = int(l.split()[1]) * 1024
-        lim = vm + (3 << 30)
+        lim = vm + (3 << 29)       # 1.5 GB above the start: a shard needs a few hundred MB
         soft, hard = resource.getrlimit(resource.RLIMIT_AS)
         if soft == resource.RLIM_INFINITY or soft > lim:
             resource.setrlimit(resource.RLIMIT_AS, (lim, hard))
+        return (soft, hard)
+    except Exception:
+        return None
+
+
+def unlimit_memory(orig):
+    try:
+        import resource
+        if orig is not None:
+            resource.setrlimit(resource.RLIMIT_AS, orig)
     except Exception:
         pass
 
@@ -1499,6 +1540,11 @@ def run_hprog(rng, nops):
                 emit("(handnull 4 %s)" % ("true" if new else "false"), "u", "solver.SetGenerationMonitor(None, new=%r)" % new)
             h("heap:" + kind)
         except Exception as exc:
+            if isinstance(exc, MemoryError):         # drop the monitors that hold the runaway lists
+                import gc
+                regs[:] = [None] * HREG; solver = None; res = None
+                gc.collect()
+                _MEMERR[0] += 1
             fs.append(("monitor", "Monitor/heap-program/op-%s/raises" % kind, "%s raised %r after %s" % (kind, exc, readable[-4:])))
             break
     # every register: contents, then the probes
@@ -1719,7 +1765,7 @@ def run_shard(pid, seed, shard, ncases, tier, extra):
     import warnings
     warnings.simplefilter("ignore")
     tmpdir = proc_tmpdir()
-    limit_memory()
+    orig_limit = limit_memory()
     findings = []; hist = {}; samples = []
     reqs = []       # (kind, payload, line)
     try:
@@ -1734,12 +1780,16 @@ def run_shard(pid, seed, shard, ncases, tier, extra):
             return range(n) if only is None and not only_stream else ()
         ks = () if only_stream else ([only] if only is not None else range(ncases))
         for k in ks:
+            if _MEMERR[0] >= 3:
+                break
             c, loglines = run_case(seed, shard, k, tier, tmpdir)
             cases.append(c)
             reqs.append(("prog", c, "C20 prog (nreg %d) (ops (%s))" % (NREG, " ".join(c.ops))))
             for l in loglines[:6]:
                 reqs.append(("logline", (c, l), "C20 logline (s %s)" % codes(l)))
         for j in stream_range("heap", max(4, ncases // 3)):
+            if _MEMERR[0] >= 6:
+                break
             rng = case_rng(PID + "/heap", seed, shard, j)
             with quiet():
                 line, hexp, fs, readable, hh = run_hprog(rng, rng.choice([4, 8, 12, 20]))
@@ -1775,6 +1825,7 @@ def run_shard(pid, seed, shard, ncases, tier, extra):
                     for en in bounds:
                         for t in (1, 2, 3, -1, -2, -3):
                             reqs.append(("sliceidx", (n, st, en, t), "C20 sliceidx (n %d) (s %s) (e %s) (t %d)" % (n, idtok(st), idtok(en), t)))
+        unlimit_memory(orig_limit)
         replies = run_driver_retry([r[2] for r in reqs])
     finally:
         shutil.rmtree(tmpdir, ignore_errors=True)
